@@ -444,7 +444,7 @@ def verus_unit(prop, tier, known_by_ob, res, vdir, only_set, u):
             return
         stem = re.sub(r"[^a-z0-9]+", "_", os.path.basename(u).split(".")[0].lower())
         gen = os.path.join(vdir, "%s_%s.rs" % (cid.lower(), stem))
-        recs = V.generate(tpath, gen, prop.get("verus_features"))
+        recs = V.generate(tpath, gen, V.unit_features(ttext, prop.get("verus_features")))
         res.extraction += recs
         gtext = read(gen)
         res.assumptions += sorted(set(V.scan_assumptions(gtext) + V.scan_standins(ttext)))
